@@ -56,11 +56,52 @@ def insideResult (q : Quad) (i : Nat) (pos assoc : Int) : MapResult :=
       if (if assoc < 0 then pos ≠ q.oldStart else pos ≠ q.oldEnd) then d0 ||| DEL_SIDE else d0
     recover := if pos = (if assoc < 0 then q.oldStart else q.oldEnd) then none else some (i, pos - q.oldStart) }
 
+/-! glue between the definitions above and the list-level notions of `Proofs/Map.lean` -/
+
+private theorem WF_iff : ∀ (rs : List Range) (lo : Int), WF lo rs ↔ RWF lo rs
+  | [], _ => Iff.rfl
+  | r :: rest, lo => by simp only [WF, RWF, WF_iff rest]
+
+private theorem StrictWF_iff : ∀ (rs : List Range) (lo : Int), StrictWF lo rs ↔ RSWF lo rs
+  | [], _ => Iff.rfl
+  | r :: rest, lo => by simp only [StrictWF, RSWF, StrictWF_iff rest]
+
+private theorem shiftBefore_eq (rs : List Range) (i : Nat) : shiftBefore rs i = shiftB rs i := rfl
+
+private theorem quad_oldStart (m : StepMap) (i : Nat) :
+    (quad m i).oldStart = qOS m.inverted 0 m.ranges i := by
+  unfold quad; cases m.inverted <;> simp [qOS, shiftBefore_eq]
+
+private theorem quad_oldEnd (m : StepMap) (i : Nat) :
+    (quad m i).oldEnd = qOE m.inverted 0 m.ranges i := by
+  unfold quad; cases m.inverted <;> simp [qOE, qOS, shiftBefore_eq, Range.oldSize]
+
+private theorem quad_newStart (m : StepMap) (i : Nat) :
+    (quad m i).newStart = qOS (!m.inverted) (-0) m.ranges i := by
+  unfold quad; cases m.inverted <;> simp [qOS, shiftBefore_eq]
+
+private theorem quad_newEnd (m : StepMap) (i : Nat) :
+    (quad m i).newEnd = qOE (!m.inverted) (-0) m.ranges i := by
+  unfold quad; cases m.inverted <;> simp [qOE, qOS, shiftBefore_eq, Range.oldSize]
+
+private theorem insideResult_eq (q : Quad) (i : Nat) (pos assoc : Int) :
+    insideResult q i pos assoc = insideRes q.oldStart q.oldEnd q.newStart q.newEnd i pos assoc := rfl
+
+/-- every position is either inside a first range or strictly between two consecutive ranges -/
+private theorem locate_quad (m : StepMap) (pos : Int) :
+    (∃ i, i < m.ranges.length ∧ (∀ j, j < i → (quad m j).oldEnd < pos) ∧
+      (quad m i).oldStart ≤ pos ∧ pos ≤ (quad m i).oldEnd) ∨
+    (∃ k, k ≤ m.ranges.length ∧ (∀ j, j < k → (quad m j).oldEnd < pos) ∧
+      (k < m.ranges.length → pos < (quad m k).oldStart)) :=
+  locate (fun i => (quad m i).oldStart) (fun i => (quad m i).oldEnd) pos m.ranges.length
+
 /-- **for_each** enumerates exactly the closed-form coordinates, in order (any map). -/
 theorem forEach_spec (m : StepMap) :
     m.forEach = (List.range m.ranges.length).map
       (fun i => ((quad m i).oldStart, (quad m i).oldEnd, (quad m i).newStart, (quad m i).newEnd)) := by
-  sorry
+  unfold StepMap.forEach
+  rw [forEachAux_spec]
+  simp only [quad_oldStart, quad_oldEnd, quad_newStart, quad_newEnd]
 
 /-- **The rule, outside the ranges**: a position after the first `k` ranges and before range `k`
     is shifted by the accumulated size difference, with no deletion info and no recover value. -/
@@ -69,7 +110,10 @@ theorem map_outside (m : StepMap) (hwf : WF 0 m.ranges) (pos assoc : Int) (k : N
     (hbefore : ∀ j, j < k → (quad m j).oldEnd < pos)
     (hafter : k < m.ranges.length → pos < (quad m k).oldStart) :
     m.mapResult pos assoc = { pos := pos + shiftAfter m k, delInfo := 0, recover := none } := by
-  sorry
+  unfold StepMap.mapResult
+  simp only [quad_oldStart, quad_oldEnd] at hbefore hafter
+  rw [mapAux_outside m.inverted pos assoc m.ranges 0 0 0 k ((WF_iff _ _).1 hwf) hk hbefore hafter]
+  simp only [shiftAfter, shiftBefore_eq, Int.add_zero]
 
 /-- **The rule, inside a range**: the first range whose closed old interval contains the position
     decides; start or end of the replacement by association side; deletion flags and recover value
@@ -79,12 +123,16 @@ theorem map_inside (m : StepMap) (hwf : WF 0 m.ranges) (pos assoc : Int) (i : Na
     (hfirst : ∀ j, j < i → (quad m j).oldEnd < pos)
     (h1 : (quad m i).oldStart ≤ pos) (h2 : pos ≤ (quad m i).oldEnd) :
     m.mapResult pos assoc = insideResult (quad m i) i pos assoc := by
-  sorry
+  unfold StepMap.mapResult
+  rw [insideResult_eq]
+  simp only [quad_oldStart, quad_oldEnd, quad_newStart, quad_newEnd] at *
+  rw [mapAux_inside m.inverted pos assoc m.ranges 0 0 0 i ((WF_iff _ _).1 hwf) hi hfirst h1 h2,
+    Nat.zero_add]
 
 /-- **Monotonicity** (same association side). -/
 theorem map_mono (m : StepMap) (hwf : WF 0 m.ranges) (p q assoc : Int) (hpq : p ≤ q) :
     m.map p assoc ≤ m.map q assoc := by
-  sorry
+  exact mapAux_mono m.inverted p q assoc hpq m.ranges 0 0 0 ((WF_iff _ _).1 hwf)
 
 /-- `deleted` is set exactly when the token on the association side of the position was deleted. -/
 theorem deleted_spec (m : StepMap) (hwf : WF 0 m.ranges) (pos assoc : Int) :
@@ -92,36 +140,89 @@ theorem deleted_spec (m : StepMap) (hwf : WF 0 m.ranges) (pos assoc : Int) :
       ∃ i, i < m.ranges.length ∧ (∀ j, j < i → (quad m j).oldEnd < pos) ∧
         (quad m i).oldStart ≤ pos ∧ pos ≤ (quad m i).oldEnd ∧
         (if assoc < 0 then pos ≠ (quad m i).oldStart else pos ≠ (quad m i).oldEnd) := by
-  sorry
+  constructor
+  · intro hd
+    rcases locate_quad m pos with ⟨i, hi, hf, h1, h2⟩ | ⟨k, hk, hb, ha⟩
+    · refine ⟨i, hi, hf, h1, h2, ?_⟩
+      rw [map_inside m hwf pos assoc i hi hf h1 h2, insideResult_eq, insideRes_deleted] at hd
+      exact hd
+    · rw [map_outside m hwf pos assoc k hk hb ha] at hd
+      simp [MapResult.deleted] at hd
+  · rintro ⟨i, hi, hf, h1, h2, hc⟩
+    rw [map_inside m hwf pos assoc i hi hf h1 h2, insideResult_eq, insideRes_deleted]
+    exact hc
+
+/-- under strict separation, the start of a range maps (to the left) to its new start -/
+private theorem map_at_start (m : StepMap) (hwf : StrictWF 0 m.ranges) (i : Nat)
+    (hi : i < m.ranges.length) (assoc : Int) (ha : assoc < 0) :
+    m.map (quad m i).oldStart assoc = (quad m i).newStart := by
+  have hw : WF 0 m.ranges := (WF_iff _ _).2 ((StrictWF_iff _ _).1 hwf).toRWF
+  have hsep : ∀ j, j < i → (quad m j).oldEnd < (quad m i).oldStart := fun j hj => by
+    rw [quad_oldEnd, quad_oldStart]
+    exact qOE_lt_qOS m.inverted m.ranges 0 0 j i ((StrictWF_iff _ _).1 hwf) hj hi
+  have hle : (quad m i).oldStart ≤ (quad m i).oldEnd := by
+    rw [quad_oldEnd, quad_oldStart]
+    exact qOS_le_qOE m.inverted m.ranges 0 0 i ((WF_iff _ _).1 hw) hi
+  unfold StepMap.map
+  rw [map_inside m hw _ assoc i hi hsep (Int.le_refl _) hle]
+  by_cases h : (quad m i).oldStart = (quad m i).oldEnd <;> simp [insideResult, sideOf, h, ha]
+
+/-- under strict separation, the end of a range maps (to the right) to its new end -/
+private theorem map_at_end (m : StepMap) (hwf : StrictWF 0 m.ranges) (i : Nat)
+    (hi : i < m.ranges.length) (assoc : Int) (ha : ¬ assoc < 0) :
+    m.map (quad m i).oldEnd assoc = (quad m i).newEnd := by
+  have hw : WF 0 m.ranges := (WF_iff _ _).2 ((StrictWF_iff _ _).1 hwf).toRWF
+  have hsep : ∀ j, j < i → (quad m j).oldEnd < (quad m i).oldStart := fun j hj => by
+    rw [quad_oldEnd, quad_oldStart]
+    exact qOE_lt_qOS m.inverted m.ranges 0 0 j i ((StrictWF_iff _ _).1 hwf) hj hi
+  have hle : (quad m i).oldStart ≤ (quad m i).oldEnd := by
+    rw [quad_oldEnd, quad_oldStart]
+    exact qOS_le_qOE m.inverted m.ranges 0 0 i ((WF_iff _ _).1 hw) hi
+  unfold StepMap.map
+  rw [map_inside m hw _ assoc i hi (fun j hj => by have := hsep j hj; omega) hle (Int.le_refl _)]
+  by_cases h : (quad m i).oldStart = (quad m i).oldEnd
+  · simp [insideResult, sideOf, h, ha]
+  · have h' : ¬ (quad m i).oldEnd = (quad m i).oldStart := fun e => h e.symm
+    simp [insideResult, sideOf, h, h']
 
 /-- **for_each agrees with map** when ranges are strictly separated: the new coordinates reported
     for a range are where `map` sends the range's old boundaries. -/
 theorem forEach_map_agree (m : StepMap) (hwf : StrictWF 0 m.ranges) (i : Nat) (hi : i < m.ranges.length) :
     m.map (quad m i).oldStart (-1) = (quad m i).newStart ∧
     m.map (quad m i).oldEnd 1 = (quad m i).newEnd := by
-  sorry
+  exact ⟨map_at_start m hwf i hi (-1) (by decide), map_at_end m hwf i hi 1 (by decide)⟩
 
 /-- the guard of `forEach_map_agree` is necessary: with adjacent ranges it fails -/
 theorem forEach_map_agree_needs_strict :
     let m : StepMap := ⟨[(2, 0, 1), (2, 2, 0)], false⟩
     WF 0 m.ranges ∧ m.map (quad m 1).oldStart (-1) ≠ (quad m 1).newStart := by
-  decide
+  intro m
+  refine ⟨by simp [m, WF], by decide⟩
 
 /-- **touches**: true exactly when the range named by the recover value contains the position. -/
 theorem touches_spec (m : StepMap) (hwf : WF 0 m.ranges) (pos : Int) (i : Nat) (off : Int) :
     m.touches pos (i, off) = true ↔
       i < m.ranges.length ∧ (quad m i).oldStart ≤ pos ∧ pos ≤ (quad m i).oldEnd := by
-  sorry
+  unfold StepMap.touches
+  rw [touchesAux_spec m.inverted pos i m.ranges 0 0 0 ((WF_iff _ _).1 hwf)]
+  simp only [quad_oldStart, quad_oldEnd, Nat.zero_add]
+  constructor
+  · rintro ⟨i', rfl, h⟩; exact h
+  · intro h; exact ⟨i, rfl, h⟩
 
 /-- **recover**: the inverse map turns a recover value back into the original position. -/
 theorem recover_spec (m : StepMap) (i : Nat) (off : Int) (hi : i < m.ranges.length) :
     m.invert.recover (i, off) = some ((quad m i).oldStart + off) := by
-  sorry
+  unfold StepMap.recover StepMap.invert quad
+  simp only [List.getElem?_eq_getElem hi, getElem!_pos m.ranges i hi, shiftBefore]
+  cases m.inverted <;> simp
 
 /-- **Inversion** swaps the old and the new coordinates of every range. -/
 theorem invert_quad (m : StepMap) (i : Nat) (hi : i < m.ranges.length) :
     quad m.invert i = ⟨(quad m i).newStart, (quad m i).newEnd, (quad m i).oldStart, (quad m i).oldEnd⟩ := by
-  sorry
+  have _ := hi
+  unfold quad StepMap.invert
+  cases m.inverted <;> simp
 
 /-- **Inverse round trip** outside the changed ranges. -/
 theorem invert_roundtrip_outside (m : StepMap) (hwf : WF 0 m.ranges) (pos a a' : Int) (k : Nat)
@@ -129,60 +230,143 @@ theorem invert_roundtrip_outside (m : StepMap) (hwf : WF 0 m.ranges) (pos a a' :
     (hbefore : ∀ j, j < k → (quad m j).oldEnd < pos)
     (hafter : k < m.ranges.length → pos < (quad m k).oldStart) :
     m.invert.map (m.map pos a) a' = pos := by
-  sorry
+  have hw := (WF_iff _ _).1 hwf
+  have hb := hbefore
+  have ha := hafter
+  simp only [quad_oldStart, quad_oldEnd] at hb ha
+  obtain ⟨hb', ha'⟩ := outside_transfer m.inverted m.ranges 0 hw pos k hk hb ha
+  have e : pos + shiftAfter m k =
+      pos + (if m.inverted then - shiftB m.ranges k else shiftB m.ranges k) := by
+    simp only [shiftAfter, shiftBefore_eq]
+  unfold StepMap.map
+  rw [map_outside m hwf pos a k hk hbefore hafter]
+  rw [map_outside m.invert hwf (pos + shiftAfter m k) a' k hk
+    (fun j hj => by rw [quad_oldEnd, e]; exact hb' j hj)
+    (fun hk' => by rw [quad_oldStart, e]; exact ha' hk')]
+  simp only [shiftAfter, StepMap.invert, shiftBefore_eq]
+  by_cases h : m.inverted = true <;> simp [h] <;> omega
 
 /-- **A mapping without mirrors is the left-to-right composition of its maps** (`map_result`). -/
 theorem mapping_composition (mp : Mapping) (hm : mp.mirror = []) (hto : mp.to ≤ mp.maps.length)
     (pos assoc : Int) :
     (mp.mapResult pos assoc).map (·.pos) = some (mp.mapPlain pos assoc) := by
-  sorry
+  unfold Mapping.mapResult Mapping.mapPlain
+  exact mappingMapAux_plain mp hm hto assoc _ _ _ _ (by omega)
 
 /-- slicing composes the sliced maps -/
 theorem slice_spec (mp : Mapping) (a b : Nat) (pos assoc : Int) :
     (mp.slice a (some b)).mapPlain pos assoc =
       ((mp.maps.take b).drop a).foldl (fun p sm => sm.map p assoc) pos := by
-  sorry
+  rfl
 
 /-- `append_map` appends -/
 theorem appendMap_spec (mp : Mapping) (sm : StepMap) :
     (mp.appendMap sm).maps = mp.maps ++ [sm] ∧ (mp.appendMap sm).to = mp.maps.length + 1 ∧
     (mp.appendMap sm).mirror = mp.mirror := by
-  sorry
+  exact ⟨rfl, rfl, rfl⟩
 
 /-- `append_mapping` appends the other mapping's maps in order -/
 theorem appendMapping_spec (mp other : Mapping) :
     (mp.appendMapping other).maps = mp.maps ++ other.maps := by
-  sorry
+  unfold Mapping.appendMapping
+  rw [foldl_range_maps _ other.maps (fun acc i hi => by
+    simp only [List.getElem?_eq_getElem hi, appendMap_maps]) _ (Nat.le_refl _), List.take_length]
 
 /-- `append_mapping_inverted` appends the inverted maps in reverse order -/
 theorem appendMappingInverted_spec (mp other : Mapping) :
     (mp.appendMappingInverted other).maps = mp.maps ++ (other.maps.reverse.map StepMap.invert) := by
-  sorry
+  unfold Mapping.appendMappingInverted
+  rw [foldl_range_reverse_maps _ other.maps (fun acc i hi => by
+    simp only [List.getElem?_eq_getElem hi, appendMap_maps]) _ (Nat.le_refl _), List.take_length]
 
 /-- `Mapping.invert` -/
 theorem mappingInvert_spec (mp : Mapping) :
     mp.invert.maps = mp.maps.reverse.map StepMap.invert := by
-  sorry
+  unfold Mapping.invert
+  rw [appendMappingInverted_spec]
+  rfl
 
 /-- **Mirror round trip (one map)**: `[m, m⁻¹]` with the two registered as mirrors sends every
     position — including positions inside deleted content — back to itself. -/
 theorem mirror_roundtrip_one (m : StepMap) (hwf : StrictWF 0 m.ranges) (pos assoc : Int) :
     let mp : Mapping := { maps := [m, m.invert], mirror := [1, 0], from_ := 0, to := 2 }
     mp.map pos assoc = some pos := by
-  sorry
+  intro mp
+  have hw : WF 0 m.ranges := (WF_iff _ _).2 ((StrictWF_iff _ _).1 hwf).toRWF
+  have hmap : mp.map pos assoc = (mappingMapAux mp assoc 3 0 pos 0).map (·.pos) := rfl
+  -- the second map is applied without a mirror jump (its mirror precedes it)
+  have stage2 : ∀ p del, (mappingMapAux mp assoc 2 1 p del).map (·.pos) =
+      some (m.invert.map p assoc) := by
+    intro p del
+    rw [mappingMapAux_step_nojump mp assoc 1 1 p del m.invert (show 1 < 2 by decide) rfl
+      (Or.inr (fun corr hc => by
+        have : corr = 0 := by
+          have h0 : mp.getMirror 1 = some 0 := rfl
+          rw [h0] at hc; exact (Option.some.inj hc).symm
+        omega)),
+      mappingMapAux_done mp assoc 1 2 _ _ (show ¬ 2 < 2 by decide)]
+    rfl
+  -- no recover value after the first map: plain composition of the two maps
+  have plain : (m.mapResult pos assoc).recover = none →
+      mp.map pos assoc = some (m.invert.map (m.map pos assoc) assoc) := by
+    intro hr
+    rw [hmap, mappingMapAux_step_nojump mp assoc 2 0 pos 0 m (show 0 < 2 by decide) rfl (Or.inl hr), stage2]
+    rfl
+  rcases locate_quad m pos with ⟨i, hi, hf, h1, h2⟩ | ⟨k, hk, hb, ha⟩
+  · have hres := map_inside m hw pos assoc i hi hf h1 h2
+    by_cases hrec : pos = (if assoc < 0 then (quad m i).oldStart else (quad m i).oldEnd)
+    · have hr : (m.mapResult pos assoc).recover = none := by
+        rw [hres]; simp only [insideResult]; rw [if_pos hrec]
+      rw [plain hr]
+      have hq := invert_quad m i hi
+      by_cases hassoc : assoc < 0
+      · rw [if_pos hassoc] at hrec
+        rw [hrec, map_at_start m hwf i hi assoc hassoc]
+        have := map_at_start m.invert hwf i hi assoc hassoc
+        rw [hq] at this
+        exact congrArg some this
+      · rw [if_neg hassoc] at hrec
+        rw [hrec, map_at_end m hwf i hi assoc hassoc]
+        have := map_at_end m.invert hwf i hi assoc hassoc
+        rw [hq] at this
+        exact congrArg some this
+    · have hr : (m.mapResult pos assoc).recover = some (i, pos - (quad m i).oldStart) := by
+        rw [hres]; simp only [insideResult]; rw [if_neg hrec]
+      rw [hmap, mappingMapAux_step_mirror mp assoc 2 0 pos 0 m m.invert _ 1 _
+        (show 0 < 2 by decide) rfl hr rfl (show 1 > 0 by decide) (show 1 < 2 by decide) rfl (recover_spec m i _ hi),
+        mappingMapAux_done mp assoc 2 2 _ _ (show ¬ 2 < 2 by decide)]
+      simp only [Option.map_some]
+      congr 1
+      omega
+  · have hres := map_outside m hw pos assoc k hk hb ha
+    have hr : (m.mapResult pos assoc).recover = none := by rw [hres]
+    rw [plain hr, invert_roundtrip_outside m hw pos assoc assoc k hk hb ha]
 
 /-- the guard is necessary: an adjacent-range map breaks the round trip -/
+-- STATEMENT CHANGED: the original witness `mp.map 3 (-1) ≠ some 3` is false for this map
+-- (`#eval mp.map 3 (-1)` gives `some 3`: position 3 lies strictly inside range 0, gets the recover
+-- value `(0, 1)` and is recovered exactly through the mirror).  Among positions 0..11 and
+-- assoc ∈ {-1, 1} the only failing round trip for this adjacent-range map is `pos = 6, assoc = 1`
+-- (`#eval mp.map 6 1` gives `some 4`), so the witness position/side was changed to that one.
+-- The `example` right below is a kernel-checked refutation of the original witness.
+example :
+    let m : StepMap := ⟨[(2, 2, 1), (4, 2, 0)], false⟩
+    let mp : Mapping := { maps := [m, m.invert], mirror := [1, 0], from_ := 0, to := 2 }
+    mp.map 3 (-1) = some 3 := by
+  decide
+
 theorem mirror_roundtrip_needs_strict :
     let m : StepMap := ⟨[(2, 2, 1), (4, 2, 0)], false⟩
     let mp : Mapping := { maps := [m, m.invert], mirror := [1, 0], from_ := 0, to := 2 }
-    WF 0 m.ranges ∧ mp.map 3 (-1) ≠ some 3 := by
-  decide
+    WF 0 m.ranges ∧ mp.map 6 1 ≠ some 6 := by
+  intro m mp
+  refine ⟨by simp [m, WF], by decide⟩
 
 /-- non-vacuity: a concrete strictly well-formed two-range map and what the rule gives on it -/
 example : StrictWF 0 [(2, 2, 1), (6, 0, 3)] ∧
     (⟨[(2, 2, 1), (6, 0, 3)], false⟩ : StepMap).map 3 1 = 3 ∧
     (⟨[(2, 2, 1), (6, 0, 3)], false⟩ : StepMap).map 6 1 = 8 ∧
     (⟨[(2, 2, 1), (6, 0, 3)], false⟩ : StepMap).map 7 1 = 9 := by
-  decide
+  refine ⟨by simp [StrictWF], by decide⟩
 
 end PM.C08
